@@ -22,6 +22,7 @@ def run(prog, tier, extra=None):
     R3 = res.rule("C04.undo-touches-ledger", "the undo of a rejected block reaches no UtxoSet mutator", floor=2)
     R2 = res.rule("C04.undo-complete", "the undo removes the block from Blockchain.blocks and from the block ring", floor=2)
     R5 = res.rule("C04.index-delete-neutral", "deleting a block from the ring moves the longest-chain marker of its slot only relative to the old marker", floor=1)
+    R6 = res.rule("C04.unwind-nonempty", "wind_chain hands the loop an Unwind continuation only when there is something to unwind", floor=1)
     R4 = res.rule("C04.recovery-rewinds-old-chain", "after a failed wind some wind step can apply the blocks of the old chain again", floor=2)
     ab = prog.body(BC + "add_block::{closure#0}")
     if ab is None:
@@ -143,6 +144,41 @@ def run(prog, tier, extra=None):
     else:
         res.sample({"rule": R4, "wind_chain_calls": [{"site": b.loc(bb), "chain_argument_from": sorted(n)} for b, bb, n in sites],
                     "wind_chain_reads_old_chain_at": [wind_body.loc(x) for x in takes_old], "verdict": "the old chain can be wound again"})
+    # R6: when a block of the candidate chain fails, wind_chain answers Unwind(0, .., new_chain[index + 1..]) - the blocks wound so far.
+    # unwind_chain indexes that vector at 0, so the continuation may only be built when index + 1 < len(new_chain), i.e. when the
+    # failing block is not the first one wound (index == len - 1): the aggregate is reachable only over an edge that says so.
+    wb = prog.body(BC + "wind_chain::{closure#0}")
+    if wb is None:
+        raise LookupError("wind_chain not found")
+    from ..expr import Chaser as _Ch6, strip as _st6, walk as _wk6
+    from .. import gate as _g6
+    ch6 = _Ch6(wb)
+
+    def is_idx(e):
+        x = _st6(e)
+        return x[0] == "field" and x[3] == "current_wind_index" and _st6(x[1])[0] == "param"
+
+    def is_len_new(e):
+        return any(y[0] == "len" and _st6(y[1])[0] == "field" and _st6(y[1])[3] == "new_chain" for y in _wk6(e))
+    some_left = set()
+    cmp6 = _g6.compare_edges(wb, ch6, lambda a, c: is_idx(a) and is_len_new(c))
+    some_left |= cmp6["ne"]
+    for c in _g6.order_edges(wb, ch6, lambda a, c: (is_idx(a) or any(is_idx(y) for y in _wk6(a))) and is_len_new(c)):
+        if c["op"] in ("Lt",):
+            some_left |= c["true_edges"]
+        elif c["op"] in ("Ge",):
+            some_left |= c["false_edges"]
+    unwind_sites = [bb for bb, blk in enumerate(wb.blocks) for st in blk["s"]
+                    if st[0] == "=" and st[2][0] == "agg" and st[2][1][0] == "adt" and st[2][1][1].endswith("WindingResult") and st[2][1][2] == "Unwind"]
+    res.instance(R6, max(len(unwind_sites), 1))
+    reach6 = wb.reachable(0, deleted_edges=some_left)
+    bad6 = [bb for bb in unwind_sites if bb in reach6]
+    if unwind_sites and bad6:
+        res.add(Finding(R6, "C04.unwind-nonempty", "wind_chain can answer Unwind(0, .., new_chain[index + 1..]) on a path that never established index + 1 < len(new_chain): "
+                        "when the first block wound fails the vector is empty and unwind_chain indexes it at 0 (add_block panics instead of refusing the block)", wb.loc(bad6[0])))
+    elif unwind_sites:
+        res.sample({"rule": R6, "sites": [wb.loc(x) for x in unwind_sites], "verdict": "only behind index != len(new_chain) - 1"})
+
     # R5: the undo deletes the rejected block from its ring slot. The slot's longest-chain marker (RingItem.lc_pos) must come out
     # of that as it went in (shifted if an earlier entry was removed, None only if the marked entry itself was removed): every value
     # that can be stored into lc_pos on the deletion path is either read from / decided by the old lc_pos, or the constant None
